@@ -150,7 +150,8 @@ def run_bounds(case, viol, obs, keys):
     chosen = rng.sample(range(n), rng.randint(1, n))
     for i in chosen:
         kind = rng.choice(["lb", "fix"])
-        val = rng.randint(int(lbs[i]), int(ubs[i]))
+        # (a requested lower bound may also lie BELOW the bound the variable was created with: the request is what counts)
+        val = rng.randint(int(lbs[i]) if rng.random() < 0.6 else 0, int(ubs[i]))
         for _ in range(rng.choice([1, 1, 1, 2, 3])):
             ops.append((kind, i, val))
     rng.shuffle(ops)
@@ -194,6 +195,28 @@ def run_bounds(case, viol, obs, keys):
     s.optimize(); _, gl2, gu2 = lp_cols(s)
     if gl2[:n] != want_l or gu2[:n] != want_u:
         viol.append({"sig": "C12/queued-bounds/changed-on-second-optimize", "msg": f"{ops}"})
+        return
+    # later batches on the same model: a new request replaces what an earlier batch set - also when it asks for a LOWER lower bound than the
+    # one in force (after an earlier raise or an earlier fix)
+    for batch in range(rng.randint(0, 2)):
+        ops2 = []
+        for i in rng.sample(range(n), rng.randint(1, n)):
+            kind = rng.choice(["lb", "lb", "fix"])
+            ops2.append((kind, i, rng.randint(0, int(want_u[i]))))
+        for kind, i, val in ops2:
+            (s.queue_set_var_lower_bound if kind == "lb" else s.queue_fix_variable)(v[i], val)
+            if kind == "fix":
+                want_l[i] = want_u[i] = float(val)
+            else:
+                want_l[i] = float(val)
+        s.optimize(); _, gl3, gu3 = lp_cols(s)
+        obs["c12.later_bound_batches_checked"] += 1
+        keys.add(f"bounds:{ops}:{batch}:{ops2}")
+        if gl3[:n] != want_l or gu3[:n] != want_u:
+            lower_ = any(k == "lb" and gl3[i] > want_l[i] for k, i, _ in ops2)
+            viol.append({"sig": "C12/queued-bounds/later-batch/" + ("request-below-the-bound-in-force-ignored" if lower_ else "wrong-bounds"),
+                         "msg": f"initial lb={lbs} ub={ubs}, first batch {ops}, later batch {ops2}: column bounds lower={gl3[:n]} upper={gu3[:n]}, requested lower={want_l} upper={want_u}"})
+            return
 
 
 def run_objective(case, viol, obs, keys):
@@ -207,7 +230,13 @@ def run_objective(case, viol, obs, keys):
         co = {i: rng.choice([1, 2, -1, 0.5, 3]) for i in idx}
         const = rng.choice([0, 0, 2.5])
         sense = rng.choice(["minimize", "maximize", "min", "max"])
-        s.set_objective(s.quicksum(co[i] * v[i] for i in idx) + const, sense=sense)
+        terms = [(i, co[i]) for i in idx]
+        if rng.random() < 0.4:
+            # the same variable in several terms of the expression (x + x + 1.5*y, 3*x - x): its coefficients add up
+            for i in rng.sample(idx, rng.randint(1, len(idx))):
+                extra = rng.choice([1, 1, -1, 2, 0.5]); terms.append((i, extra)); co[i] = co[i] + extra
+            rng.shuffle(terms); obs["c12.objectives_with_repeated_variables"] += 1
+        s.set_objective(s.quicksum(c_ * v[i] for i, c_ in terms) + const, sense=sense)
         if rng.random() < 0.3:
             w = s.add_variables([f"late{rnd}"], "z", lb=0, ub=3, var_type="continuous")   # variable created after an objective existed
             v[n] = w[f"late{rnd}"]; n += 1; want.append(0.0)
